@@ -383,7 +383,7 @@ def replay_histories(ctx, histfile, subcmd, module="Trace", chunks=NCPU, limit=N
             ctx.events += r["n"]
             evs = [json.loads(l) for l in open(r["file"])]
             ctx.traces += sum(1 for e in evs if e.get("ev") == "Reset")
-            ctx.nontrivial += sum(1 for e in evs if e.get("nontriv"))
+            ctx.nontrivial += sum(1 for e in evs if e.get("nontriv") or e.get("ev") == "Call")
             if len(ctx.samples) < 2 and evs:
                 ctx.samples.append({"history": evs[0].get("hist"), "events": [trim_sample(e) for e in evs[1:6]]})
             for idx in r["rejected"]:
